@@ -199,7 +199,7 @@ def replay(case):
 def run(tier='quick', seed=0, nproc=16):
   res = common.pmap(check_leaf, leaf_domain(tier), nproc)
   res += common.pmap(check_config, [n for n, _ in pool.make_pool()], nproc)
-  res.append(no_invocation_case())
+  res.append(common.guard(no_invocation_case))
   return common.merge(
       res, 'layerb.prop_C09', keyfn=lambda v: ('bytes-escape' if v.get('kind') == 'bytes' else None),
       rule='leaf domain (ints around 2^53/2^63/10^30, special floats, escape-like str, every byte '
